@@ -138,7 +138,7 @@ def matrix(chk):
         chk.inconc('matrix schema library could not be built')
         return []
     rng = random.Random('c15-matrix')
-    pg = gen_p21.PopGen(s, rng, avoid=AVOID_POP | {'complex'}, strs=['a', "it''s"])
+    pg = gen_p21.PopGen(s, rng, avoid=AVOID_POP | {'complex', 'array_optional_null'}, strs=['a', "it''s"])
     pop = pg.population(n_extra=0, with_complex=False)
     insts = []
     for i in pop.insts:
